@@ -96,15 +96,33 @@ theorem pinned_header_is_genuine (H : Bytes → Bytes) (features : List Nat) (b 
 /-- The pin comparison in the source is on complete byte strings (F6 repair). -/
 theorem pin_compares_full_bytes_fact : Gen.pinComparesFullBytes = true := by decide
 
-/-- **C04 T4 (`--verify-output`).**  Success implies the output hashes to the recorded checksum. -/
+/-- **C04 T4 (`--verify-output`).**  Success implies that the first `source_total_size` bytes of the
+output hash to the recorded checksum.  Since the F17 repair (`Gen.verifyHashesSourceSizeOnly`)
+`--verify-output` hashes the first source-size bytes only: for a regular file that is the whole
+output (`verify_output_sound_file`); on a block device longer than the source the statement is about
+that prefix - the rest of the device is not the clone's business (before the repair the whole device
+was hashed and verification always failed there). -/
 theorem verify_output_sound (H : Bytes → Bytes) (decomp : Nat → Bytes → Nat → Option Bytes)
     (features : List Nat)
     (readAt : Nat → Nat → Option Bytes) (readChunks : List (Nat × Nat) → List (Option Bytes))
     (opts : CloneOpts) (prior : Bytes) (seeds : List Bytes) (a : Archive)
     (hinit : tryInit H features readAt = .ok a) (hv : opts.verifyOutput = true) :
     let r := Clone.run H decomp features readAt readChunks opts prior seeds
-    r.result = .ok → hashTruncate (H r.output) a.sourceChecksum.length = a.sourceChecksum :=
+    r.result = .ok →
+      hashTruncate (H (r.output.take a.sourceTotalSize)) a.sourceChecksum.length = a.sourceChecksum :=
   Proofs.clone_verify_output H decomp features readAt readChunks opts prior seeds a hinit hv
+
+/-- ... and when the output is a regular file (which the clone cuts to the source size), the whole
+output hashes to the recorded checksum. -/
+theorem verify_output_sound_file (H : Bytes → Bytes) (decomp : Nat → Bytes → Nat → Option Bytes)
+    (features : List Nat)
+    (readAt : Nat → Nat → Option Bytes) (readChunks : List (Nat × Nat) → List (Option Bytes))
+    (opts : CloneOpts) (prior : Bytes) (seeds : List Bytes) (a : Archive)
+    (hinit : tryInit H features readAt = .ok a) (hv : opts.verifyOutput = true)
+    (hb : opts.blockDev = false) :
+    let r := Clone.run H decomp features readAt readChunks opts prior seeds
+    r.result = .ok → hashTruncate (H r.output) a.sourceChecksum.length = a.sourceChecksum :=
+  Proofs.clone_verify_output_file H decomp features readAt readChunks opts prior seeds a hinit hv hb
 
 /-- An archive that does not open leaves the output untouched. -/
 theorem unopened_archive_untouched (H : Bytes → Bytes) (decomp : Nat → Bytes → Nat → Option Bytes)
@@ -136,5 +154,10 @@ theorem clone_steps_as_modelled :
     Gen.cloneStepOrder = ["try_init", "banner", "pin", "open_output", "device_check", "scan_output", "reorder",
                           "seed_stdin", "seed_files", "fetch", "flush", "resize", "verify_output"] :=
   Proofs.clone_step_order_fact
+
+/-- The option parser refuses a `--verify-header` value longer than a checksum (read from cli.rs on
+every run; F15 repair): what reaches the comparison is the value that was typed, not its first
+64 bytes. -/
+theorem pin_length_checked_fact : Gen.pinLengthChecked = true := by decide
 
 end Bita.Props.C04
